@@ -725,11 +725,22 @@ def _decode_paths(ctx, df, TRIMMED):
         info["stream"] = rk[:-len(".stream")] if rk.endswith(".stream") else rk
         is_data = any(isinstance(c.func, ast.Attribute) and c.func.attr == "frombuffer" for c, e, st in calls_on(p))
         sides = []
+        from .sem import _SubstEnv as _SE
+        from ..core.loader import clone as _cl
+        aenv = {}
         for s_ in p.steps:
+            if s_.kind == "stmt" and isinstance(s_.ast, ast.Assign) and len(s_.ast.targets) == 1 and isinstance(s_.ast.targets[0], ast.Name):
+                # boolean temporaries (`has_data = buffer is not None and len(buffer) > 0`) are read through
+                v_ = s_.ast.value
+                if isinstance(v_, (ast.Compare, ast.BoolOp)) or (isinstance(v_, ast.UnaryOp) and isinstance(v_.op, ast.Not)):
+                    aenv[s_.ast.targets[0].id] = _SE(aenv).visit(_cl(v_))
+                else:
+                    aenv.pop(s_.ast.targets[0].id, None)
             if s_.kind != "test" or s_.ast is None or not isinstance(s_.ast, ast.If):
                 continue
             ev = evaluator(ctx, df, s_.env)
-            e = emptiness_by(s_.ast.test, lambda x: bool(TRIMMED.fullmatch(ev.ev(x).key())))
+            tst_ = _SE(aenv).visit(_cl(s_.ast.test)) if aenv else s_.ast.test
+            e = emptiness_by(tst_, lambda x: bool(TRIMMED.fullmatch(ev.ev(x).key())))
             if e is None:
                 continue
             sides.append((s_.label == "true") == e)
@@ -1017,12 +1028,33 @@ def rule_P7(ctx):
     es = ctx.fn(mg, "ExportManager.export_samples", "P7")
     ecfg = ctx.cfg(es, "P7")
     fors = sorted([f for f in own_nodes(es) if isinstance(f, ast.For)], key=lambda f: f.lineno)
-    v = norm(fors[1].iter) if len(fors) == 2 else "?"
-    ok = len(fors) == 2 and norm(fors[0].iter) == "self.routines.values()" and isinstance(fors[1].iter, ast.Name) \
-        and any(isinstance(a, ast.Assign) and norm(a) == f"{v} = {fors[0].target.id}({v})" for a in ast.walk(fors[0]))
+    # value flow over the top-level statements (plain copies are followed): collected -> piped through every routine -> exported
+    state = {}  # local name -> "collected" | "piped"
+    ok_init = ok_pipe = False
+    export_loop = None
+    for st in es.body:
+        if isinstance(st, (ast.Assign, ast.AnnAssign)) and getattr(st, "value", None) is not None:
+            tg = st.targets[0] if isinstance(st, ast.Assign) else st.target
+            if isinstance(tg, ast.Name):
+                if norm(st.value) == "self.samples":
+                    state[tg.id] = "collected"
+                    ok_init = True
+                elif isinstance(st.value, ast.Name) and st.value.id in state:
+                    state[tg.id] = state[st.value.id]
+                else:
+                    state.pop(tg.id, None)
+        elif isinstance(st, ast.For) and norm(st.iter) == "self.routines.values()" and isinstance(st.target, ast.Name):
+            body = [x for x in st.body if not isinstance(x, ast.Pass)]
+            if len(body) == 1 and isinstance(body[0], ast.Assign) and isinstance(body[0].targets[0], ast.Name) and state.get(body[0].targets[0].id) == "collected" \
+                    and norm(body[0].value) == f"{st.target.id}({body[0].targets[0].id})" and not st.orelse:
+                state[body[0].targets[0].id] = "piped"
+                ok_pipe = True
+        elif isinstance(st, ast.For) and isinstance(st.iter, ast.Name) and state.get(st.iter.id) == "piped" and export_loop is None:
+            export_loop = st
+    ok = ok_pipe and export_loop is not None and any(isinstance(c, ast.Call) and norm(c.func) == "export_wav" for c in ast.walk(export_loop))
     ctx.ob("P7", es, "sample routines (stereo pairing) are applied to the level's samples, then every resulting sample is exported", ok, "", inst="routines-then-export")
-    init = [a for a in own_nodes(es) if isinstance(a, ast.Assign) and norm(a) == f"{v} = self.samples" and a.lineno < fors[0].lineno] if len(fors) == 2 else []
-    ctx.ob("P7", es, "the exported list starts as the level's collected samples", len(init) == 1, "", inst="samples-init")
+    ctx.ob("P7", es, "the exported list starts as the level's collected samples", ok_init and ok_pipe, "", inst="samples-init")
+    fors = [f for f in fors if f is not export_loop] + ([export_loop] if export_loop is not None else [])
     if len(fors) == 2:
         lp = ecfg.loop_of(fors[1])
         for kind, path, edge in ecfg.iteration_paths(lp):
